@@ -27,7 +27,8 @@ FLOORS = {"mixed-direction": 0.2, "one-sided-cursive": 0.15, "categories": 0.155
 
 POOL = [("A", 0x41), ("a", 0x61), ("n", 0x6E), ("o", 0x6F), ("be-cy", 0x431), ("alef-ar", 0x627), ("beh-ar", 0x628), ("lam-ar", 0x644), ("bet-hb", 0x5D1), ("period", 0x2E),
         ("hyphen", 0x2D), ("space", 0x20), ("one", 0x31), ("f_i", None), ("lam_alef-ar", 0xFEFB), ("acutecomb", 0x301), ("unenc", None),
-        ("a.alt", None), ("beh-ar.fina", None), ("n.fina", None), ("o_hyphen_o", None), ("period.alt", None)]
+        ("a.alt", None), ("beh-ar.fina", None), ("n.fina", None), ("o_hyphen_o", None), ("period.alt", None), ("a.swash", None), ("a.bold", None)]
+DS_RULE_ALTS = ("a.swash", "a.bold")  # reachable only through designspace rules (two rules with the same left-hand glyph)
 # substitutions the generator may write: (inputs, output, fea text)
 RULES = {
     "a.alt": (["a"], "sub a by a.alt;"),
@@ -101,6 +102,11 @@ def _case(draw):
     case = {"spec": spec, "module": draw(st.sampled_from(["ufoLib2", "defcon"]))}
     if draw(st.sampled_from([True, False, False, False])):
         case["first"] = draw(_font())  # the same writer instances are used on this font first
+    names = [g["name"] for g in spec["glyphs"]]
+    if "a" in names and any(n in names for n in DS_RULE_ALTS) and draw(st.booleans()):
+        # compiled as the masters of a designspace whose rules substitute 'a' by these alternates (per-master feature compilation)
+        case["ds_rules"] = [["a", n] for n in DS_RULE_ALTS if n in names]
+        case.pop("first", None)
     return case
 
 
@@ -146,7 +152,25 @@ def run_case(case, ctx):
         except Exception:
             pass
     with guard("compileTTF"):
-        t = ufo2ft.compileTTF(S.build(strip(spec), module), useProductionNames=False, featureWriters=writers)
+        if case.get("ds_rules"):
+            from fontTools.designspaceLib import AxisDescriptor, DesignSpaceDocument, RuleDescriptor, SourceDescriptor
+
+            ds = DesignSpaceDocument()
+            ax = AxisDescriptor()
+            ax.name, ax.tag, ax.minimum, ax.default, ax.maximum = "Weight", "wght", 0, 0, 1000
+            ds.addAxis(ax)
+            for k_ in (0, 1):
+                sd = SourceDescriptor()
+                sd.font, sd.name, sd.location = S.build(strip(spec), module), "m%d" % k_, {"Weight": 1000 * k_}
+                ds.addSource(sd)
+            for k_, (l_, r_) in enumerate(case["ds_rules"]):
+                rd = RuleDescriptor()
+                rd.name, rd.conditionSets, rd.subs = "r%d" % k_, [[{"name": "Weight", "minimum": 400 + 100 * k_, "maximum": 1000}]], [(l_, r_)]
+                ds.addRule(rd)
+            t = ufo2ft.compileInterpolatableTTFsFromDS(ds, useProductionNames=False).sources[1].font
+            ctx.label("designspace-rules-with-shared-left-glyph" if len(case["ds_rules"]) > 1 else "designspace-rule")
+        else:
+            t = ufo2ft.compileTTF(S.build(strip(spec), module), useProductionNames=False, featureWriters=writers)
         b = io.BytesIO()
         t.save(b)
     t = TTFont(io.BytesIO(b.getvalue()))
@@ -213,6 +237,8 @@ def run_case(case, ctx):
             elif ud.script_horizontal_direction(sc, "LTR") == "LTR":
                 ltr_seed.add(n)
     rules = {k: v for k, v in RULES.items() if k in spec.get("alts", [])}
+    for l_, r_ in case.get("ds_rules", []):
+        rules[r_] = ([l_], "")  # a designspace rule counts like a substitution
     neutral_closed = closure(neutral_seed, rules)
     ltr_closed = closure(ltr_seed | neutral_seed, rules) - neutral_closed
     ltr_closed |= ltr_seed
